@@ -280,6 +280,26 @@ def crash_key(pid, output):
     return '%s:crash:%s:%s' % (pid, kind, fn)
 
 
+def cur_to_replay(pid, path):
+    """convert the mapped 'current case' file left behind by an aborted process into a replay file (in place)"""
+    try:
+        raw = open(path, 'rb').read()
+    except OSError:
+        return False
+    if len(raw) < 16 or raw[:4] != b'VCUR':
+        return False
+    kind = chr(raw[4]); n = int.from_bytes(raw[8:16], 'little')
+    open(path, 'wb').write(('VERIF-REPLAY %s %s\n' % (pid, kind)).encode() + raw[16:16 + n])
+    return True
+
+
+def crash_excerpt(out):
+    m = re.search(r'(==\d+==ERROR: [^\n]*|[^\n]*runtime error: [^\n]*|SUMMARY: [^\n]*)', out)
+    head = m.group(1) if m else ''
+    frames = re.findall(r'#\d+ 0x[0-9a-f]+ in (\w+) [^\n]*?([\w.]+:\d+)', out)[:6]
+    return head + ' | ' + ' <- '.join('%s(%s)' % f for f in frames)
+
+
 def replay_file(binp, path, env, timeout=600):
     """returns (status, key, msg, output): status in pass|fail|known|crash|timeout"""
     try:
@@ -290,7 +310,7 @@ def replay_file(binp, path, env, timeout=600):
     m = re.search(r'^REPLAY \S+ (pass|fail|known) key=(\S*) msg=(.*)$', out, re.M)
     if m and (r.returncode in (0, 3) or m.group(1) == 'fail'):
         return m.group(1), m.group(2), m.group(3), out
-    return 'crash', crash_key(os.path.basename(binp).split('-')[0].split('.')[0], out), out[-1500:], out
+    return 'crash', crash_key(os.path.basename(binp).split('-')[0].split('.')[0], out), crash_excerpt(out), out
 
 
 def save_replay(pid, src, key):
@@ -485,9 +505,9 @@ def main():
                 m = re.search(r'^key=(.*)$', t, re.M); key = m.group(1) if m else ''
                 m = re.search(r'^msg=(.*)$', t, re.M); msg = m.group(1) if m else ''
             failures.append((base + '.fail', key, msg, j['kind']))
-        elif os.path.exists(base + '.cur') and os.path.getsize(base + '.cur') > 0:
+        elif cur_to_replay(pid, base + '.cur'):
             key = crash_key(pid, out)
-            failures.append((base + '.cur', key, out[-1500:], 'crash'))
+            failures.append((base + '.cur', key, crash_excerpt(out), 'crash'))
         else:
             log('BROKEN: shard %s exited rc=%s without a case file\n%s' % (base, rc, out[-2000:]))
             inconclusive.append('shard %s broke (rc=%s)' % (os.path.basename(base), rc))
